@@ -41,6 +41,7 @@ type Collector struct {
 	violations map[string]*ViolationRec
 	seq        int
 	Broken     []string // harness self-check failures (=> exit 2, never a VIOLATION)
+	bulkNT     int64    // distinct non-trivial cases of exhaustive enumerations (distinct by construction, partitioned over shards)
 	start      time.Time
 }
 
@@ -65,6 +66,16 @@ func (c *Collector) Case(hash uint64, nontrivial bool, classes ...string) {
 	for _, cl := range classes {
 		c.Classes[cl]++
 	}
+	c.mu.Unlock()
+}
+
+// Bulk accounts for an exhaustively enumerated block of cases that are distinct by
+// construction and partitioned over the shards (so no hash set is needed).
+func (c *Collector) Bulk(evals, nontrivial int64, class string) {
+	c.mu.Lock()
+	c.Evals += evals
+	c.bulkNT += nontrivial
+	c.Classes[class] += evals
 	c.mu.Unlock()
 }
 
@@ -184,19 +195,20 @@ func (c *Collector) Flush(exitCode int) {
 	}
 	sort.Slice(viols, func(i, j int) bool { return viols[i].seq < viols[j].seq })
 	doc := map[string]any{
-		"shard":       EnvShard(),
-		"seed":        EnvSeed(),
-		"evaluations": c.Evals,
-		"nontrivial":  len(c.nontrivial),
-		"classes":     c.Classes,
-		"samples":     c.Samples,
-		"programs":    progs,
-		"extra":       c.Extra,
-		"exhaustive":  c.Exhaustive,
-		"violations":  viols,
-		"broken":      c.Broken,
-		"exit":        exitCode,
-		"wall_s":      time.Since(c.start).Seconds(),
+		"shard":           EnvShard(),
+		"seed":            EnvSeed(),
+		"evaluations":     c.Evals,
+		"nontrivial":      len(c.nontrivial),
+		"bulk_nontrivial": c.bulkNT,
+		"classes":         c.Classes,
+		"samples":         c.Samples,
+		"programs":        progs,
+		"extra":           c.Extra,
+		"exhaustive":      c.Exhaustive,
+		"violations":      viols,
+		"broken":          c.Broken,
+		"exit":            exitCode,
+		"wall_s":          time.Since(c.start).Seconds(),
 	}
 	b, err := json.Marshal(doc)
 	if err != nil {
